@@ -18,3 +18,4 @@ tag=$(python3 -c "import hashlib,sys;print(hashlib.sha256(sys.argv[1].encode()).
 rm -rf "/verif/.build/harness-$tag"
 git -C /repo worktree remove --force "$wt"
 rm -f /verif/replays/*.json
+python3 /verif/tools/extract_formulas.py >/dev/null
